@@ -21,7 +21,7 @@ import hashlib
 
 from regen import group, RegenError, parse, module_assign, find_class, find_func, const, lean_char, lean_str, HEADER
 
-REL = "mako/filters.py"
+REL = "mako/filters.py"   # + mako/template.py (DefTemplate), mako/runtime.py (_render), mako/codegen.py (visitExpression)
 
 
 def _re_parser():
@@ -255,6 +255,78 @@ def gen(repo) -> str:
     entity_format = ent_fmts[0]
     fingerprint = hashlib.sha1((ref_pat + "\0" + ref_flags).encode()).hexdigest()[:16]
 
+    # --- where the output settings travel: DefTemplate.__init__ (mako/template.py), runtime._render (mako/runtime.py)
+    ttree = parse(repo, "mako/template.py")
+    dcls = find_class(ttree, "DefTemplate", "mako/template.py")
+    dinit = find_func(dcls.body, "__init__", "mako/template.py")
+    dargs = [a.arg for a in dinit.args.args]
+    if len(dargs) < 2:
+        raise RegenError("DefTemplate.__init__ no longer takes (self, parent, ...)")
+    selfn, parentn = dargs[0], dargs[1]
+
+    def names_of(node, what):
+        """a tuple/list of string constants, given literally or as a class attribute of DefTemplate"""
+        if isinstance(node, ast.Attribute) and isinstance(node.value, ast.Name) and node.value.id in (selfn, "DefTemplate"):
+            node = class_assign(dcls, node.attr, "mako/template.py")
+        elif isinstance(node, ast.Name):
+            node = class_assign(dcls, node.id, "mako/template.py")
+        if not isinstance(node, (ast.Tuple, ast.List)):
+            raise RegenError("%s: not a literal tuple/list of names" % what)
+        return [const(e, str, what) for e in node.elts]
+    inherited = []
+    for st in ast.walk(dinit):
+        if isinstance(st, ast.Assign) and len(st.targets) == 1:
+            tg, val = st.targets[0], st.value
+            if (isinstance(tg, ast.Attribute) and isinstance(tg.value, ast.Name) and tg.value.id == selfn
+                    and isinstance(val, ast.Attribute) and isinstance(val.value, ast.Name) and val.value.id == parentn
+                    and val.attr == tg.attr):
+                inherited.append(tg.attr)
+        if isinstance(st, ast.For) and isinstance(st.target, ast.Name):
+            v = st.target.id
+            copies = [c for c in ast.walk(st) if isinstance(c, ast.Call) and isinstance(c.func, ast.Name) and c.func.id == "setattr"
+                      and len(c.args) == 3 and isinstance(c.args[0], ast.Name) and c.args[0].id == selfn
+                      and isinstance(c.args[1], ast.Name) and c.args[1].id == v
+                      and isinstance(c.args[2], ast.Call) and isinstance(c.args[2].func, ast.Name) and c.args[2].func.id == "getattr"
+                      and len(c.args[2].args) >= 2 and isinstance(c.args[2].args[0], ast.Name) and c.args[2].args[0].id == parentn
+                      and isinstance(c.args[2].args[1], ast.Name) and c.args[2].args[1].id == v]
+            if copies:
+                inherited.extend(names_of(st.iter, "DefTemplate.__init__ loop"))
+    if not inherited:
+        raise RegenError("DefTemplate.__init__: no `self.X = parent.X` copies recognised")
+    inherited = sorted(set(inherited))
+    rtree = parse(repo, "mako/runtime.py")
+    rfun = find_func(rtree.body, "_render", "mako/runtime.py")
+    buf_args = []
+    for c in ast.walk(rfun):
+        if (isinstance(c, ast.Call) and isinstance(c.func, (ast.Attribute, ast.Name))
+                and (c.func.attr if isinstance(c.func, ast.Attribute) else c.func.id) == "FastEncodingBuffer"
+                and (c.args or c.keywords)):
+            named = {kw.arg: kw.value for kw in c.keywords}
+            pos = list(c.args)
+            e_ = named.get("encoding", pos[0] if pos else None)
+            r_ = named.get("errors", pos[1] if len(pos) > 1 else None)
+            if e_ is None or r_ is None:
+                raise RegenError("runtime._render: FastEncodingBuffer(...) without encoding/errors")
+            buf_args = [dotted(e_, "_render encoding"), dotted(r_, "_render errors")]
+    if not buf_args:
+        raise RegenError("runtime._render no longer builds FastEncodingBuffer(encoding=..., errors=...)")
+
+    # --- which filter sources decide that an expression goes through create_filter_callable (codegen.visitExpression)
+    ctree = parse(repo, "mako/codegen.py")
+    gcls = find_class(ctree, "_GenerateRenderMethod", "mako/codegen.py")
+    vexp = find_func(gcls.body, "visitExpression", "mako/codegen.py")
+    ifs = [n for n in vexp.body if isinstance(n, ast.If)]
+    if len(ifs) != 1:
+        raise RegenError("codegen.visitExpression: expected exactly one top-level `if`")
+    expr_sources = set()
+    for n in ast.walk(ifs[0].test):
+        if isinstance(n, ast.Attribute):
+            try:
+                expr_sources.add(dotted(n, "visitExpression"))
+            except RegenError:
+                pass
+    expr_sources = sorted(expr_sources)
+
     # --- from the interpreter
     import html.entities as he
     c2n = sorted(he.codepoint2name.items())
@@ -280,6 +352,12 @@ def gen(repo) -> str:
         if str(markupsafe.escape(ch)) != ch:
             raise RegenError("markupsafe.escape(%r) is not the identity" % ch)
 
+    probe = markupsafe.escape("<&>\"'")
+    ms_markup = (isinstance(probe, markupsafe.Markup) and markupsafe.escape(probe) is probe or
+                 (isinstance(probe, markupsafe.Markup) and str(markupsafe.escape(probe)) == str(probe)
+                  and isinstance(markupsafe.escape(probe), markupsafe.Markup)))
+    ms_strip_keeps = isinstance(probe.strip(), markupsafe.Markup)
+    ms_str_plain = type(str(probe)) is str
     import re
     cps = [c for c in range(0x110000) if not (0xD800 <= c <= 0xDFFF)]
     space = [c for c in cps if chr(c).isspace()]
@@ -319,6 +397,10 @@ def gen(repo) -> str:
     L.append("")
     L.append("/-- `markupsafe.escape` of the running interpreter: the characters it changes (identity on the rest of the BMP, checked at regen time) -/")
     L.append("def markupsafeEscapes : List (Char × List Char) := " + lean_pairs_char_str(ms) + "\n")
+    L.append("/-- probed: `markupsafe.escape` returns a `Markup` and leaves a `Markup` argument unchanged; `Markup.strip()` stays a `Markup`; `str(Markup)` is a plain `str` -/")
+    L.append("def markupsafeIdempotentOnMarkup : Bool := %s" % ("true" if ms_markup else "false"))
+    L.append("def markupStripKeepsMarkup : Bool := %s" % ("true" if ms_strip_keeps else "false"))
+    L.append("def strOfMarkupIsPlain : Bool := %s\n" % ("true" if ms_str_plain else "false"))
     L.append("/-- `XMLEntityEscaper.__escapable`: these characters, or any code point above `xeeAsciiMax` -/")
     L.append("def xeeEscapable : List Char := [" + ", ".join(lean_char(chr(c)) for c in xee_lits) + "]")
     L.append("def xeeAsciiMax : Nat := %d" % xee_above)
@@ -329,6 +411,12 @@ def gen(repo) -> str:
     L.append(ref_pat.replace("-/", "- /") + "\nflags: " + ref_flags + " -/")
     L.append("def characterrefsFingerprint : List Char := " + lean_str(fingerprint))
     L.append("-- characterrefs-fingerprint: " + fingerprint + "\n")
+    L.append("/-- attributes `DefTemplate.__init__` copies from its parent template (mako/template.py), sorted -/")
+    L.append("def defTemplateInherited : List (List Char) := [" + ", ".join(lean_str(a) for a in inherited) + "]")
+    L.append("/-- `runtime._render`: the (encoding, errors) arguments of the `FastEncodingBuffer` that produces the bytes -/")
+    L.append("def renderBufferArgs : List (List Char) := [" + ", ".join(lean_str(a) for a in buf_args) + "]")
+    L.append("/-- dotted names inspected by the condition of `codegen.visitExpression` that sends an expression through `create_filter_callable` -/")
+    L.append("def exprFilterSources : List (List Char) := [" + ", ".join(lean_str(a) for a in expr_sources) + "]\n")
     L.append("/-- `html.entities.codepoint2name` of the running interpreter (sorted by code point), %d entries -/" % len(c2n))
     L.append("def codepoint2name : List (Nat × List Char) := [\n" +
              ",\n".join("  (%d, %s)" % (c, lean_str(n)) for c, n in c2n) + "\n]\n")
